@@ -54,6 +54,23 @@ def check(ctx):
     from .C13 import fused_name_hash
 
     fused_name_hash(ctx)
+    # ---------------- collection optimizers receive NESTED keys (several collections at once): every pass gets them flattened
+    KEYED = {"fuse_linear_task_spec", "cull", "fuse_roots", "optimize_blockwise", "fuse", "inline", "inline_functions", "fuse_linear"}
+    n_k = 0
+    for rel in ("dask/delayed.py", "dask/bag/core.py", "dask/array/optimization.py"):
+        of = model.module(rel).func("optimize")
+        flat = [a for a, _ in find("keys = list(flatten(keys))", of)]
+        for c in calls(of, None):
+            nm = (call_name(c) or "").split(".")[-1]
+            if nm not in KEYED:
+                continue
+            kargs = [a for a in list(c.args) + [k.value for k in c.keywords] if any(isinstance(n, ast.Name) and n.id == "keys" for n in ast.walk(a))]
+            for a in kargs:
+                n_k += 1
+                ok = "flatten(keys)" in unparse(a) or any(dominates(of, fl, c) for fl in flat)
+                ctx.ob("SIB.optimizer.flat-keys", c, f"{rel}::optimize: {unparse(c)[:80]} receives flattened keys", ok, "" if ok else "computing several collections together passes a nested list of keys: set(keys) raises TypeError (or the nested lists are taken for keys and everything else is culled)")
+    ctx.count("optimizer_key_uses", n_k)
+    ctx.floor("optimizer_key_uses", 7)
 
 
 def _cull(ctx, f, style):
